@@ -171,3 +171,53 @@ Definition read_ref (s : pstate) (r : nat) : option (list N) :=
   | Some rf => if r_live rf then Some (concat (map (read_seg s) (r_segs rf))) else None
   | None => None
   end.
+
+(* ------------------------------------------------------------------ pageBuffer.ReadFrom *)
+(* the tail page of a live buffer: None = no such live buffer, Some None = it has no page yet *)
+Definition buf_tail (s : pstate) (b : nat) : option (option nat) :=
+  match nth_error (s_bufs s) b with
+  | Some bf => if b_live bf then Some (match rev (b_pages bf) with [] => None | p :: _ => Some p end) else None
+  | None => None
+  end.
+
+(* pb.ReadFrom(r) for a reader that delivers exactly [data] and then EOF.  One round of the
+   code's loop per unit of fuel:
+     no page yet, or the tail page is full (free == 0)  ->  pb.pages = append(pb.pages, pb.newPage())
+     otherwise n = tail.ReadFrom(r) copies min(free, len data) bytes behind the bytes the tail
+     page already holds; the loop ends when n < free (the reader ran dry), else goes on.
+   [src] lists what pagePool.Get() returns at each newPage() (None / exhausted = nothing pooled). *)
+Fixpoint pb_read_from (fuel : nat) (s : pstate) (b : nat) (data : list N) (src : list (option nat))
+  {struct fuel} : option pstate :=
+  match fuel with
+  | O => None
+  | S f =>
+    match buf_tail s b with
+    | None => None
+    | Some None =>
+      match step s (ONewPage b (hd None src)) with
+      | Some s1 => pb_read_from f s1 b data (tl src)
+      | None => None
+      end
+    | Some (Some p) =>
+      let free := page_size - length (p_data (get_page s p)) in
+      if free =? 0 then
+        match step s (ONewPage b (hd None src)) with
+        | Some s1 => pb_read_from f s1 b data (tl src)
+        | None => None
+        end
+      else
+        match step s (OAppend b (firstn free data)) with
+        | Some s1 =>
+          if length (firstn free data) <? free then Some s1
+          else pb_read_from f s1 b (skipn free data) src
+        | None => None
+        end
+    end
+  end.
+
+(* all the bytes of a buffer, page after page *)
+Definition buf_content (s : pstate) (b : nat) : list N :=
+  match nth_error (s_bufs s) b with
+  | Some bf => concat (map (fun p => p_data (get_page s p)) (b_pages bf))
+  | None => []
+  end.
